@@ -213,6 +213,17 @@ class SInt:
     __ne__ = _cmp(lambda a, b: a != b)
 
     def __hash__(self):
+        cands = ENG.int_hash_candidates
+        if cands is not None:
+            # dictionary/set key: decide equality with each declared candidate; a value equal to none of them can
+            # only collide with itself, so one fixed hash is sound (at most one such symbolic key per path)
+            k = self.known()
+            if k is not None:
+                return hash(k)
+            for c in cands:
+                if ENG.branch(self.e == c):
+                    return hash(c)
+            return 0x51ab
         return hash(self.__index__())
 
     def __bool__(self):
@@ -1028,6 +1039,7 @@ class Engine:
         self.abort_reason = None
         self.format_concretize = False
         self.hash_candidates = []
+        self.int_hash_candidates = None
         self.path_state = {}       # free for stubs (hash registry, clocks, ...)
         self.path_viol = []
         self.choices = []
